@@ -265,10 +265,15 @@ impl MqttShared {
         self.streaming_waiter.take();
 
         if let Some(cb) = self.on_publish_ack.take() {
-            for (idx, tx, _) in queues.inflight.drain(..) {
-                if tx.is_none() {
-                    (*cb)(idx, true);
-                }
+            let ids: Vec<_> = queues
+                .inflight
+                .drain(..)
+                .filter_map(|(idx, tx, _)| tx.is_none().then_some(idx))
+                .collect();
+            // callback may use the sink
+            drop(queues);
+            for idx in ids {
+                (*cb)(idx, true);
             }
         } else {
             queues.inflight.clear();
@@ -403,19 +408,21 @@ impl MqttShared {
                 queues.inflight_ids.remove(&pkt.packet_id());
 
                 if pkt.is_match(tp) {
-                    if let Some(tx) = tx {
-                        let _ = tx.send(pkt);
-                    } else {
-                        let cb = self.on_publish_ack.take().unwrap();
-                        (*cb)(pkt.packet_id(), false);
-                        self.on_publish_ack.set(Some(cb));
-                    }
-
                     // wake up queued request (receive max limit)
                     // every waiter checks readiness again; a single woken waiter
                     // could be a `ready()` call or could be dropped before it runs
                     for tx in queues.waiters.drain(..) {
                         let _ = tx.send(());
+                    }
+
+                    if let Some(tx) = tx {
+                        let _ = tx.send(pkt);
+                    } else {
+                        // callback may use the sink
+                        drop(queues);
+                        let cb = self.on_publish_ack.take().unwrap();
+                        (*cb)(pkt.packet_id(), false);
+                        self.on_publish_ack.set(Some(cb));
                     }
                     Ok(())
                 } else {
